@@ -84,6 +84,13 @@ def handle (op0 : String) (args : List String) : Option String :=
     match randombytes_buf_deterministic (Sodium.Driver.C03.chachaBi seed drgNonce) (Chacha.load32le drgNonce) size with
     | .misuse => some "misuse"
     | .ok o => some (toHex o)
+  | "rng.drg.alias", [size, seed, off] => do
+    -- the seed lives inside the output buffer: the result is still the keystream of the seed that was passed in
+    let size ← parseNat? size; let seed ← ofHex seed; let off ← parseNat? off
+    if off + 32 > size then some badArgs else
+    match randombytes_buf_deterministic (Sodium.Driver.C03.chachaBi seed drgNonce) (Chacha.load32le drgNonce) size with
+    | .misuse => some "misuse"
+    | .ok o => some (toHex o)
   | "rng.drg_guard", [size] => do
     let size ← parseNat? size
     some (if size > 0x4000000000 then "misuse" else "proceeds")
